@@ -33,7 +33,39 @@ ASSUMPTIONS = ["reference self-tests passed", "after a displacement/squeezing st
 
 
 @st.composite
+def _unnormalised_case(draw):
+    """a pure state held as a density matrix leaves the unit-trace regime (non-unitary user operator through the
+    non-renormalising Custom type, automatic contraction off) and is then contracted explicitly / by switching
+    automatic contraction back on: 'contracting ... never changes the physical state' (the ray)"""
+    spec, layout = draw(S.world_and_layout(max_joint=300))
+    info = S.Info(spec, layout)
+    focks = [s_ for s_ in info.subs if info.kind[s_] == "fock"]
+    t = draw(st.sampled_from(focks))
+    env = info.env_of(t)
+    steps = []
+    for _ in range(draw(st.integers(0, 2))):
+        steps.append(dict(k="struct", call="expand", sub=t))
+    ces = info.ces_of(t)
+    entries = ["state"] + (["env"] if env else []) + list(ces)
+    steps.append(dict(k="op", entry=draw(st.sampled_from(entries)), targets=[t], op=dict(type="fock:Custom", useed=draw(S.seeds), unitary=False)))
+    for _ in range(draw(st.integers(1, 3))):
+        how = draw(st.sampled_from(["contract", "contract", "env_contract", "switch", "expand"]))
+        if how == "contract":
+            steps.append(dict(k="struct", call="contract", sub=t, final=draw(st.sampled_from([0, 1]))))
+        elif how == "expand":
+            steps.append(dict(k="struct", call="expand", sub=t))
+        elif how == "env_contract" and env:
+            steps.append(dict(k="struct", call="env_contract", env=env))
+        else:
+            steps.append(dict(k="set_contraction", value=True))
+            steps.append(dict(k="op", entry=draw(st.sampled_from(entries)), targets=[t], op=dict(type="fock:PhaseShift", params=dict(phi=draw(S.angle)))))
+    return dict(spec=spec, layout=layout, contraction=draw(st.sampled_from([False, False, True])), steps=steps, family="direct")
+
+
+@st.composite
 def _case(draw):
+    if draw(st.integers(0, 7)) == 0:
+        return draw(_unnormalised_case())
     if draw(st.integers(0, 2)) == 0:
         c = draw(S.program_case(["struct_rep"], max_steps=4))
         c["family"] = "direct"
